@@ -128,7 +128,9 @@ def handleEvalCheck : List String → Option String
     let la ← Proto.parseNats la
     let d : LaDfa := ⟨p0, tr, k⟩
     -- the property quantifies over automata parol produces (sorted); malformed ones only test totality
-    if !sortedTrans tr then (if reply == ["panic"] then some "fail panic" else some "ok") else
+    -- (a panic is tolerated exactly where the model says the debug assertion fires)
+    if !sortedTrans tr then
+      (if reply == ["panic"] && eval d true la != .assertFail then some "fail panic" else some "ok") else
     match reply with
     | ["ok", p] => do
       let p ← Proto.parseInt p
